@@ -43,6 +43,41 @@ def reader_identity(ctx, rule, B, bb, t, m, inst):
                 key='WHO:%s:%s:local-reader' % (B.path, m))
 
 
+AWE = 'tokio::io::util::async_write_ext::AsyncWriteExt::'
+COMPLETE_WRITES = ('write_all', 'write_u8', 'write_u16', 'write_u32', 'write_u64', 'write_i32', 'write_all_buf', 'flush', 'shutdown')
+
+
+def write_discipline(ctx, rule):
+    """socket writes use only primitives that write everything they are given; an adaptor that buffers reads is never unwrapped"""
+    P = ctx.P
+    n = 0
+    for B in P.all('edp_client'):
+        if B.b['file'] not in READ_FILES:
+            continue
+        seen = {}
+        for bb, t in B.calls():
+            fn_items = [a['fn'] for a in t['args'] if a['k'] == 'c' and a.get('fn')]
+            for nm in list(callee_names(t)) + fn_items:
+                m = nm.rsplit('::', 1)[1]
+                if nm.startswith(AWE) or nm.startswith('tokio::io::async_write::AsyncWrite::') or nm.startswith('std::io::Write::'):
+                    n += 1
+                    k = seen.get(m, 0) + 1
+                    seen[m] = k
+                    inst = '%s:%s%s' % (B.path, m, '' if k == 1 else '#%d' % k)
+                    if m in COMPLETE_WRITES:
+                        ctx.ok(rule, inst, 'complete-write primitive', ctx.where(B, bb))
+                    else:
+                        ctx.bad(rule, inst, 'partial-write API %s on the framing write path: the socket may accept only part of the data, and the hand-written continuation is then part of the frame logic '
+                                '(a wrong offset there sends a frame whose length prefix does not match its bytes)' % m, ctx.where(B, bb), key='WHO:%s:%s' % (B.path, m))
+                    break
+                if ('BufReader' in nm or 'BufStream' in nm) and m in ('into_inner', 'into_parts', 'get_mut', 'get_pin_mut'):
+                    n += 1
+                    ctx.bad(rule, '%s:%s' % (B.path, m), '%s takes the raw reader out of a buffering adaptor: bytes the adaptor has already read from the socket (the next frame, when two arrived together) are dropped or bypassed'
+                            % (nm.rsplit('::', 2)[-2] + '::' + m), ctx.where(B, bb), key='WHO:%s:unwraps-buffered-reader' % B.path)
+                    break
+    return n
+
+
 def mode_regions(B):
     """blocks exclusive to each FrameMode variant of a `match self.mode`"""
     for i in sorted(B.live_blocks()):
@@ -95,6 +130,10 @@ def run(ctx):
             else:
                 ctx.bad('C05.2-read-result-used', inst, 'result of the read is never inspected: a short stream would be treated as data', ctx.where(B, bb),
                         key='ERRDISC:%s:%s' % (B.path, m))
+
+    ctx.rule('C05.7-write-discipline', 'socket writes in framing.rs / transport.rs / connection.rs use only complete-write primitives (write_all, write_uN, flush); no partial-write API with a hand-written continuation; '
+             'a buffering read adaptor is never unwrapped (into_inner) on the read path', floor=6)
+    write_discipline(ctx, 'C05.7-write-discipline')
 
     # ---- clause 3/5: cap before allocation, zero-length before allocation ---------------
     ctx.rule('C05.3-cap-before-alloc', 'in both frame readers the body buffer allocation is dominated by a guard bounding the wire length by a constant cap', floor=2)
